@@ -18,12 +18,19 @@ Lemma reserve_covers_runs : 5 <= PRINT_NUM_WRITE_MAX /\ PRINT_NUM_WRITE_MAX + 6 
 Proof. vm_compute. split; discriminate. Qed.
 
 (* ---------------------------------------------------------------- no overrun, termination *)
-Lemma no_overrun_streams ops m sz sl' :
-  (m = Fixed -> PRINT_RESERVE <= sz) -> chk CF 0 ops = Some sl' ->
-  exists s', run CF ops (init CF m sz) = Some s' /\ viol s' = false.
+(* the side condition on what the reallocator hands back to a growing buffer started with sz: every block is at
+   least the previous one plus the reserve (0 = failed allocation, allowed); the doubling of the pinned tree and
+   any other policy with this property are covered *)
+Definition alloc_ok (m : pmode) (sz : Z) (o : list Z) : Prop :=
+  m = Dynamic -> good_orc PRINT_RESERVE (dyn_size CF sz) o.
+
+Lemma no_overrun_streams ops m sz o sl' :
+  (m = Fixed -> PRINT_RESERVE <= sz) -> alloc_ok m sz o -> chk CF 0 ops = Some sl' ->
+  exists s', run CF ops (init CF m sz o) = Some s' /\ viol s' = false /\ obad s' = false.
 Proof.
-  intros Hs Hc. apply no_overrun_terminates with sl'; [apply std_CF| |assumption].
-  intros Hm. split; [apply Hs, Hm|left; reflexivity].
+  intros Hs Ho Hc. apply no_overrun_terminates with sl'; [apply std_CF| | |assumption].
+  - intros Hm. split; [apply Hs, Hm|left; reflexivity].
+  - intros Hm. split; [apply Ho, Hm|left; reflexivity].
 Qed.
 
 Lemma value_streams_bounded F v :
@@ -37,24 +44,27 @@ Qed.
 Lemma root_ops_split O F v : root_ops O F v = (vops O F 0 PRINT_MAX_LEVELS v ++ (if pretty F then [PChar 10] else [])) ++ [PFlushAll].
 Proof. unfold root_ops, last_ops. rewrite app_assoc. reflexivity. Qed.
 
-Lemma no_overrun_values F v m sz :
+Lemma no_overrun_values F v m sz o :
   0 <= indent F -> wfv PRINT_NUM_WRITE_MAX v = true -> is_fieldlike v = false ->
-  (m = Fixed -> PRINT_RESERVE <= sz) ->
-  exists s', run CF (root_ops ocfg_fixed F v) (init CF m sz) = Some s' /\ viol s' = false /\ term s' = true.
+  (m = Fixed -> PRINT_RESERVE <= sz) -> alloc_ok m sz o ->
+  exists s', run CF (root_ops ocfg_fixed F v) (init CF m sz o) = Some s' /\ viol s' = false /\ term s' = true.
 Proof.
-  intros Hi Hw Hf Hs. destruct (value_streams_bounded F v Hi Hw Hf) as (sl' & Hc).
-  destruct (no_overrun_streams _ m sz sl' Hs Hc) as (s' & E & Hv).
+  intros Hi Hw Hf Hs Ho. destruct (value_streams_bounded F v Hi Hw Hf) as (sl' & Hc).
+  destruct (no_overrun_streams _ m sz o sl' Hs Ho Hc) as (s' & E & Hv & _).
   exists s'. repeat split; auto. rewrite root_ops_split in E. eapply ends_terminated. exact E.
 Qed.
 
 (* the pinned print_ex / print_indent_ex code terminates and stays inside the buffer too, as long as the fixed
-   buffer is larger than the reserve and the stream has no base64 field (chk refuses PB64 for the pinned code) *)
-Lemma pinned_code_terminates ops m sz sl' :
-  (m = Fixed -> PRINT_RESERVE < sz) -> chk CC 0 ops = Some sl' ->
-  exists s', run CC ops (init CC m sz) = Some s' /\ viol s' = false.
+   buffer is larger than the reserve, no enlargement of a growing buffer fails, and the stream has no base64 field
+   (chk refuses PB64 for the pinned code) *)
+Lemma pinned_code_terminates ops m sz o sl' :
+  (m = Fixed -> PRINT_RESERVE < sz) -> (m = Dynamic -> good_orc PRINT_RESERVE (dyn_size CC sz) o /\ nofail o = true) ->
+  chk CC 0 ops = Some sl' ->
+  exists s', run CC ops (init CC m sz o) = Some s' /\ viol s' = false.
 Proof.
-  intros Hs Hc. apply no_overrun_terminates with sl'; [apply std_CC| |assumption].
-  intros Hm. specialize (Hs Hm). split; [unfold CC, cfg_current, RSV; lia|right; unfold CC, cfg_current, RSV; lia].
+  intros Hs Ho Hc. destruct (no_overrun_terminates CC ops m sz o sl') as (s' & E & Hv & _); [apply std_CC| | |assumption|eauto].
+  - intros Hm. specialize (Hs Hm). split; [unfold CC, cfg_current, RSV; lia|right; unfold CC, cfg_current, RSV; lia].
+  - intros Hm. destruct (Ho Hm) as [G N]. split; [exact G|right; exact N].
 Qed.
 
 (* ---------------------------------------------------------------- the three output modes *)
@@ -70,48 +80,57 @@ Record agree (ops : list prim) (szf : Z) (sf sd sl : st) : Prop := mkagree {
   a_fits : err sf = 0 <-> len (text ops) < szf - PRINT_RESERVE
 }.
 
-Lemma modes_agree_streams ops szf szd sl' :
+Lemma modes_agree_streams ops szf szd o sl' :
   PRINT_RESERVE <= szf -> no_perr ops = true -> chk CF 0 (ops ++ [PFlushAll]) = Some sl' ->
+  good_orc PRINT_RESERVE (dyn_size CF szd) o -> nofail o = true ->
   exists sf sd sl,
-    run CF (ops ++ [PFlushAll]) (init CF Fixed szf) = Some sf /\
-    run CF (ops ++ [PFlushAll]) (init CF Dynamic szd) = Some sd /\
-    run CF (ops ++ [PFlushAll]) (init CF File 0) = Some sl /\
+    run CF (ops ++ [PFlushAll]) (init CF Fixed szf []) = Some sf /\
+    run CF (ops ++ [PFlushAll]) (init CF Dynamic szd o) = Some sd /\
+    run CF (ops ++ [PFlushAll]) (init CF File 0 []) = Some sl /\
     agree ops szf sf sd sl.
 Proof.
-  intros Hsz Hn Hc.
-  destruct (no_overrun_streams _ Fixed szf sl' ltac:(auto) Hc) as (sf & Ef & Hvf).
-  destruct (no_overrun_streams _ Dynamic szd sl' ltac:(discriminate) Hc) as (sd & Ed & Hvd).
-  destruct (no_overrun_streams _ File 0 sl' ltac:(discriminate) Hc) as (sl & El & Hvl).
+  intros Hsz Hn Hc Hg Hnf.
+  destruct (no_overrun_streams _ Fixed szf [] sl' ltac:(auto) ltac:(intros N; discriminate) Hc) as (sf & Ef & Hvf & _).
+  destruct (no_overrun_streams _ Dynamic szd o sl' ltac:(discriminate) ltac:(intros _; exact Hg) Hc) as (sd & Ed & Hvd & _).
+  destruct (no_overrun_streams _ File 0 [] sl' ltac:(discriminate) ltac:(intros N; discriminate) Hc) as (sl & El & Hvl & _).
   exists sf, sd, sl. split; [assumption|]. split; [assumption|]. split; [assumption|].
   assert (Hn' : no_perr (ops ++ [PFlushAll]) = true).
   { unfold no_perr in *. rewrite forallb_app, Hn. reflexivity. }
-  pose proof (growing_never_overflows CF _ Dynamic szd sd ltac:(discriminate) Hn' Ed) as Hed.
-  pose proof (growing_never_overflows CF _ File 0 sl ltac:(discriminate) Hn' El) as Hel.
+  pose proof (growing_never_overflows CF _ Dynamic szd o sd ltac:(discriminate) Hnf Hn' Ed) as Hed.
+  pose proof (growing_never_overflows CF _ File 0 [] sl ltac:(discriminate) eq_refl Hn' El) as Hel.
   constructor.
   - auto.
-  - destruct (output_is_text CF _ Dynamic szd sd Ed Hvd Hed) as (A & B0 & D). rewrite text_flushall in *.
+  - destruct (output_is_text CF _ Dynamic szd o sd Ed Hvd Hed) as (A & B0 & D). rewrite text_flushall in *.
     destruct (D ltac:(discriminate)) as (D1 & D2 & _). repeat split; auto. eapply ends_terminated; eassumption.
-  - destruct (output_is_text CF _ File 0 sl El Hvl Hel) as (A & B0 & _). rewrite text_flushall in *. auto.
-  - intros He. destruct (output_is_text CF _ Fixed szf sf Ef Hvf He) as (A & B0 & D). rewrite text_flushall in *.
+  - destruct (output_is_text CF _ File 0 [] sl El Hvl Hel) as (A & B0 & _). rewrite text_flushall in *. auto.
+  - intros He. destruct (output_is_text CF _ Fixed szf [] sf Ef Hvf He) as (A & B0 & D). rewrite text_flushall in *.
     destruct (D ltac:(discriminate)) as (D1 & D2 & _). repeat split; auto. eapply ends_terminated; eassumption.
   - intros He. unfold observe. cbn [r_ret]. destruct (err sf =? 0) eqn:E; [lia|reflexivity].
-  - apply (fixed_success_iff_fits CF ops szf sf Hn Ef Hvf).
+  - apply (fixed_success_iff_fits CF ops szf [] sf Hn Ef Hvf).
 Qed.
 
-Lemma modes_agree_values F v szf szd :
+Lemma modes_agree_values F v szf szd o :
   0 <= indent F -> wfv PRINT_NUM_WRITE_MAX v = true -> is_fieldlike v = false ->
   PRINT_RESERVE <= szf ->
+  good_orc PRINT_RESERVE (dyn_size CF szd) o -> nofail o = true ->
   let ops := vops ocfg_fixed F 0 PRINT_MAX_LEVELS v ++ (if pretty F then [PChar 10] else []) in
   no_perr ops = true ->      (* nesting below FLATCC_JSON_PRINT_MAX_LEVELS: no deep_recursion error *)
   exists sf sd sl,
-    run CF (root_ops ocfg_fixed F v) (init CF Fixed szf) = Some sf /\
-    run CF (root_ops ocfg_fixed F v) (init CF Dynamic szd) = Some sd /\
-    run CF (root_ops ocfg_fixed F v) (init CF File 0) = Some sl /\
+    run CF (root_ops ocfg_fixed F v) (init CF Fixed szf []) = Some sf /\
+    run CF (root_ops ocfg_fixed F v) (init CF Dynamic szd o) = Some sd /\
+    run CF (root_ops ocfg_fixed F v) (init CF File 0 []) = Some sl /\
     agree ops szf sf sd sl.
 Proof.
-  intros Hi Hw Hf Hsz ops Hn. destruct (value_streams_bounded F v Hi Hw Hf) as (sl' & Hc).
+  intros Hi Hw Hf Hsz Hg Hnf ops Hn. destruct (value_streams_bounded F v Hi Hw Hf) as (sl' & Hc).
   rewrite root_ops_split in *. fold ops in Hc |- *. eapply modes_agree_streams; eassumption.
 Qed.
+
+(* the doubling of the pinned tree and growth by half plus the reserve both satisfy the side condition, from every
+   block size the printer can have *)
+Lemma doubling_ok sz : PRINT_RESERVE <= sz -> sz + PRINT_RESERVE <= 2 * sz.
+Proof. lia. Qed.
+Lemma half_plus_reserve_ok sz : 0 <= sz -> sz + PRINT_RESERVE <= sz + sz / 2 + PRINT_RESERVE.
+Proof. intros H. assert (0 <= sz / 2) by (apply Z.div_pos; lia). lia. Qed.
 
 (* errors are sticky; a deep_recursion error (any error raised by the printers) is reported by every mode *)
 Lemma err_sticky_run C ops a b : run C ops a = Some b -> err b = 0 -> err a = 0.
@@ -140,7 +159,7 @@ Definition F2 : flags := mkflags 2 false false.
 (* (1) print_ex never returns when the fixed buffer is exactly the reserve *)
 Lemma print_ex_nonterminating :
   exists l, forall fuel,
-    ex_loop CC fuel (check CC (init CC Fixed PRINT_RESERVE)) l = None.
+    ex_loop CC fuel (check CC (init CC Fixed PRINT_RESERVE [])) l = None.
 Proof.
   exists [116]. intros fuel. apply ex_loop_diverges; try reflexivity. discriminate.
 Qed.
@@ -150,15 +169,15 @@ Qed.
 Lemma closing_run_exceeds_reserve :
   exists v sz s',
     wfv PRINT_NUM_WRITE_MAX v = true /\ PRINT_RESERVE <= sz /\
-    run CC (root_ops ocfg_current F0 v) (init CC Fixed sz) = Some s' /\ viol s' = true /\
+    run CC (root_ops ocfg_current F0 v) (init CC Fixed sz []) = Some s' /\ viol s' = true /\
     chk CF 0 (root_ops ocfg_current F0 v) = None.
 Proof.
   exists (chain 70), 420.
-  destruct (run CC (root_ops ocfg_current F0 (chain 70)) (init CC Fixed 420)) as [s'|] eqn:E;
+  destruct (run CC (root_ops ocfg_current F0 (chain 70)) (init CC Fixed 420 [])) as [s'|] eqn:E;
     [|vm_compute in E; discriminate].
   exists s'. split; [vm_compute; reflexivity|]. split; [vm_compute; discriminate|]. split; [reflexivity|].
   split; [|vm_compute; reflexivity].
-  assert (G : option_map viol (run CC (root_ops ocfg_current F0 (chain 70)) (init CC Fixed 420)) = Some true)
+  assert (G : option_map viol (run CC (root_ops ocfg_current F0 (chain 70)) (init CC Fixed 420 [])) = Some true)
     by (vm_compute; reflexivity).
   rewrite E in G. cbn [option_map] in G. some_inj G. exact G.
 Qed.
@@ -169,24 +188,24 @@ Definition nulls : value := VTable [VField [117; 118] (VVec VkSep (repeat VNull 
 Lemma separator_run_exceeds_reserve :
   exists sz s',
     PRINT_RESERVE <= sz /\
-    run CC (root_ops ocfg_current F2 nulls) (init CC Fixed sz) = Some s' /\ viol s' = true /\
+    run CC (root_ops ocfg_current F2 nulls) (init CC Fixed sz []) = Some s' /\ viol s' = true /\
     chk CF 0 (root_ops ocfg_current F2 nulls) = None.
 Proof.
   exists 100.
-  destruct (run CC (root_ops ocfg_current F2 nulls) (init CC Fixed 100)) as [s'|] eqn:E;
+  destruct (run CC (root_ops ocfg_current F2 nulls) (init CC Fixed 100 [])) as [s'|] eqn:E;
     [|vm_compute in E; discriminate].
   exists s'. split; [vm_compute; discriminate|]. split; [reflexivity|]. split; [|vm_compute; reflexivity].
-  assert (G : option_map viol (run CC (root_ops ocfg_current F2 nulls) (init CC Fixed 100)) = Some true)
+  assert (G : option_map viol (run CC (root_ops ocfg_current F2 nulls) (init CC Fixed 100 [])) = Some true)
     by (vm_compute; reflexivity).
   rewrite E in G. cbn [option_map] in G. some_inj G. exact G.
 Qed.
 
 (* (4) base64 makes no progress in the two buffer modes when 1..3 bytes remain below pflush *)
 Lemma base64_no_progress :
-  exists s l, md s = Dynamic /\ (exists pre, s = puts (init CC Dynamic 100) pre) /\
+  exists s l, md s = Dynamic /\ (exists pre, s = puts (init CC Dynamic 100 []) pre) /\
     forall fuel, b64_loop CC fuel s l = None.
 Proof.
-  exists (puts (init CC Dynamic 100) (repeat 65 34)), (repeat 66 8).
+  exists (puts (init CC Dynamic 100 []) (repeat 65 34)), (repeat 66 8).
   split; [reflexivity|]. split; [eexists; reflexivity|].
   intros fuel. apply b64_loop_diverges; [reflexivity|discriminate| |]; vm_compute; [split; reflexivity|reflexivity].
 Qed.
